@@ -22,3 +22,6 @@ for f in glob.glob('/repo/x/**/zz_verif_contracts*.go',recursive=True):
 json.dump(cfg,open(cfgp,'w'),indent=1)
 for a in added: print('added',a[0],a[1])
 print(len(added),'additions')
+
+# (A blanket rule "every contracted function defined in an anchored file joins the property" was tried and dropped: it added
+#  210 functions, most of them irrelevant to the property, and would make a check alarm on changes that only break another property.)
